@@ -787,6 +787,9 @@ class CircuitTemplate(AbstractBaseTemplate):
             for key, value in node_values.items():
                 *node_id, op, var = key.split("/")
                 target_nodes = self.get_nodes(node_id)
+                if not target_nodes:
+                    warn(PyRatesWarning(f'Variable {key} has not been found in the network. '
+                                        f'The value passed for it is ignored.'))
                 for i, n in enumerate(target_nodes):
                     if n not in values:
                         values[n] = dict()
